@@ -177,7 +177,7 @@ fn dump_pair(conn: i64, ops: &mut Vec<Vec<Tok>>, used: &[Vec<u8>], db0: bool) {
     ops.push(cmd_op(conn, &[b"DBSIZE"]));
 }
 
-const SIDS: &[&[u8]] = &[b"1-1", b"2-0", b"2-5", b"5-3", b"0-1", b"3", b"abc", b"18446744073709551615-1", b"7-18446744073709551615", b"0-0", b"9-9", b"-", b"+", b"4-x"];
+const SIDS: &[&[u8]] = &[b"1-1", b"2-0", b"2-5", b"5-3", b"0-1", b"abc", b"18446744073709551615-1", b"7-18446744073709551615", b"0-0", b"9-9"];
 const SCOUNTS: &[&[u8]] = &[b"0", b"1", b"2", b"10", b"+2", b"x", b"-1", b"18446744073709551615"];
 /// stream commands of the executor's catalogue (explicit IDs only: `XADD key *` needs the clock oracle)
 fn stream_cmd(r: &mut Rng) -> Vec<Vec<u8>> {
@@ -188,10 +188,15 @@ fn stream_cmd(r: &mut Rng) -> Vec<Vec<u8>> {
         0..=4 => vec![v(b"XADD"), k, id(r), v(*r.pick(&[&b"f"[..], b"g", b""])), v(*r.pick(c01::VALUES))],
         5 => match r.below(4) { 0 => vec![v(b"XADD"), k, id(r)], 1 => vec![v(b"XADD"), k, id(r), v(b"f")], 2 => vec![v(b"XADD"), k, v(b"MAXLEN"), v(b"2"), id(r), v(b"f"), v(b"v")], _ => vec![v(b"xadd"), k, id(r), v(b"f"), v(b"v"), v(b"g")] },
         6 => vec![v(b"XLEN"), k],
-        7 | 8 => { let mut c = vec![v(if r.chance(1, 2) { b"XRANGE" } else { b"XREVRANGE" }), k, id(r), id(r)];
+        // range bounds: "-" / "+" only where they belong; odd ID texts are C15/C16 ground (Streams.v is being reworked there)
+        7 | 8 => { let rev = r.chance(1, 2);
+                   let wf = |r: &mut Rng| v(*r.pick(&[&b"1-1"[..], b"2-0", b"2-5", b"5-3", b"0-1", b"9-9", b"0-0", b"18446744073709551615-1", b"abc"]));
+                   let lo = if r.chance(1, 3) { v(b"-") } else { wf(r) }; let hi = if r.chance(1, 3) { v(b"+") } else { wf(r) };
+                   let mut c = if rev { vec![v(b"XREVRANGE"), k, hi, lo] } else { vec![v(b"XRANGE"), k, lo, hi] };
                    match r.below(6) { 0 | 1 => { c.push(v(b"COUNT")); c.push(v(*r.pick(SCOUNTS))); } 2 => c.push(v(b"COUNT")), 3 => { c.push(v(b"count")); c.push(v(b"1")); c.push(v(b"extra")); } _ => {} } c }
         9 => vec![v(b"XRANGE"), k, v(b"-"), v(b"+")],
-        10 => { let mut c = vec![v(b"XDEL"), k]; for _ in 0..(1 + r.below(2)) { c.push(id(r)); } c }
+        // ID text of XDEL: well-formed IDs and plain garbage only (the parsing of odd ID texts is C15/C16 ground)
+        10 => { let mut c = vec![v(b"XDEL"), k]; for _ in 0..(1 + r.below(2)) { c.push(v(*r.pick(&[&b"1-1"[..], b"2-0", b"2-5", b"5-3", b"0-1", b"9-9", b"abc"]))); } c }
         11 | 12 => match r.below(5) { 0 => vec![v(b"XTRIM"), k, v(b"MAXLEN"), v(*r.pick(SCOUNTS))], 1 => vec![v(b"XTRIM"), k, v(b"MAXLEN"), v(b"~"), v(b"1")],
                                       2 => vec![v(b"XTRIM"), k, v(b"maxlen"), v(b"="), v(b"2")], 3 => vec![v(b"XTRIM"), k, v(b"MINID"), v(b"1")], _ => vec![v(b"XTRIM"), k, v(b"MAXLEN"), v(b"1"), v(b"extra")] },
         _ => vec![v(b"XDEL"), k],
@@ -212,12 +217,9 @@ fn twin_case(r: &mut Rng, id: usize) -> Case {
     seed_ops(1, &mut ops, r, &mut used);
     let mut g3 = c03::Gen::new(r.fork());
     let n = 3 + r.below(22);
-    let binary_ok = r.chance(1, 4);
     for _ in 0..n {
         let c = gen_direct(r, &mut g3);
         if !twin_ok(&c, db) { continue; }
-        // most twin pairs use text arguments only (binary data meets the lossy conversions: class lua-lossy)
-        let c: Vec<Vec<u8>> = if binary_ok { c } else { c.into_iter().map(|a| if std::str::from_utf8(&a).is_err() { b"caf\xc3\xa9".to_vec() } else { a }).collect() };
         let name = c[0].to_ascii_uppercase();
         let kp = key_positions(&name, c.len());
         for &j in &kp { if !used.contains(&c[j]) && used.len() < 14 { used.push(c[j].clone()); } }
@@ -256,7 +258,9 @@ fn simple_call(r: &mut Rng, keys: &mut Vec<Vec<u8>>) -> Vec<E> {
         12 => vec![s(b"NOSUCHCMD"), k(r, keys)],
         13 => vec![s(b"GET")],
         14 => if r.chance(1, 2) { vec![s(b"APPEND"), k(r, keys), s(b"zz")] } else { vec![s(if r.chance(1, 2) { b"TTL" } else { b"PTTL" }), k(r, keys)] },
-        _ => match r.below(6) { 0 => vec![s(b"DBSIZE")], 1 => vec![s(b"KEYS"), s(*r.pick(&[&b"k1"[..], b"h?", b"zz*", b"l[1]"]))], 2 => vec![s(b"FLUSHDB")],
+        _ => match r.below(9) { 6 => vec![s(b"SET"), k(r, keys), s(b"kept"), s(*r.pick(&[&b"KEEPTTL"[..], b"GET", b"keepttl"]))],
+                                7 => vec![s(b"SET"), k(r, keys), s(b"w"), s(b"KEEPTTL"), s(b"EX"), s(b"10")], 8 => vec![s(*r.pick(&[&b"DBSIZE"[..], b"FLUSHDB", b"RANDOMKEY"])), s(b"extra")],
+                                0 => vec![s(b"DBSIZE")], 1 => vec![s(b"KEYS"), s(*r.pick(&[&b"k1"[..], b"h?", b"zz*", b"l[1]"]))], 2 => vec![s(b"FLUSHDB")],
                                 3 => vec![s(b"DECRBY"), k(r, keys), s(b"-9223372036854775808")], 4 => vec![s(b"EXPIRE"), k(r, keys), s(*r.pick(&[&b"0"[..], b"-1", b"x"]))],
                                 _ => vec![s(b"TYPE"), k(r, keys)] },
     }
@@ -410,11 +414,72 @@ fn sha_case(r: &mut Rng, id: usize) -> Case {
     Case { id: format!("sh-{}", id), ops, outs: vec![] }
 }
 
+// ---------------------------------------------------------------- lazy expiry seen from scripts (logical clock, sweeper paused)
+/// spell a command name in lower, upper or mixed case
+fn spell(r: &mut Rng, name: &[u8]) -> Vec<u8> {
+    match r.below(3) { 0 => name.to_ascii_lowercase(), 1 => name.to_ascii_uppercase(),
+                       _ => name.iter().enumerate().map(|(i, c)| if i % 2 == 0 { c.to_ascii_uppercase() } else { c.to_ascii_lowercase() }).collect() }
+}
+/// a direct keyspace command and the same through redis.call (same database, same keys: both are reads)
+fn lx_pair(r: &mut Rng, ops: &mut Vec<Vec<Tok>>, c: i64, cmd: &[&[u8]]) {
+    let pcall = r.chance(1, 3);
+    let name = spell(r, cmd[0]);
+    let mut args = vec![E::Str(name)];
+    for a in &cmd[1..] { args.push(match canonical_int(a) { Some(z) if r.chance(1, 2) => E::Int(z), _ => E::Str(a.to_vec()) }); }
+    let sorted = cmd[0] == b"KEYS";
+    let mut body = vec![St::Call(pcall, args)];
+    if sorted { body.push(St::Sort(1)); }
+    // the script goes first half of the time: a direct keyspace command sent before it would already
+    // have purged the keys that are past their deadline
+    let script_first = r.chance(1, 2);
+    ops.push(note_op(&[if script_first { b"twinr" } else { b"twin" }, if pcall { b"pcall" } else { b"call" }, if sorted { b"sorted" } else { b"plain" }]));
+    let ev = eval_op(c, &print_script(&Script { body, ret: Some(E::Res(1)) }, r.chance(1, 2)), &[], &[]);
+    if script_first { ops.push(ev); ops.push(cmd_op(c, cmd)); } else { ops.push(cmd_op(c, cmd)); ops.push(ev); }
+}
+fn lazy_case(r: &mut Rng, id: usize) -> Case {
+    let db: i64 = *r.pick(&[0i64, 1, 15]);
+    let dbs = db.to_string().into_bytes();
+    let other: i64 = *r.pick(&[2i64, 7]);
+    let others = other.to_string().into_bytes();
+    let mut ops = vec![conn_op(1), conn_op(2), cmd_op(1, &[b"VERIF", b"SWEEP", b"PAUSE"]), cmd_op(1, &[b"SELECT", &dbs]), cmd_op(2, &[b"SELECT", &others])];
+    // keys with deadlines at 200 / 400 ms of the logical clock, and keys without
+    let keep = r.below(3);                      // 0, 1 or 2 keys that never expire
+    if keep >= 1 { ops.push(cmd_op(1, &[b"SET", b"stay", b"v"])); }
+    if keep >= 2 { ops.push(cmd_op(1, &[b"RPUSH", b"lstay", b"a"])); }
+    ops.push(cmd_op(1, &[b"SET", b"e2", b"v", b"PX", b"200"]));
+    ops.push(cmd_op(1, &[b"SET", b"e4", b"v", b"PX", b"400"]));
+    if r.chance(1, 2) { ops.push(cmd_op(1, &[b"RPUSH", b"le2", b"a", b"b"])); ops.push(cmd_op(1, &[b"PEXPIRE", b"le2", b"200"])); }
+    if r.chance(1, 2) { ops.push(cmd_op(1, &[b"HSET", b"he4", b"f", b"v"])); ops.push(cmd_op(1, &[b"PEXPIRE", b"he4", b"400"])); }
+    if r.chance(1, 2) { ops.push(cmd_op(2, &[b"SET", b"o2", b"v", b"PX", b"200"])); ops.push(cmd_op(2, &[b"SET", b"ostay", b"v"])); }
+    for _round in 0..3 {
+        let n = 2 + r.below(5);
+        for _ in 0..n {
+            let c = if r.chance(1, 4) { 2 } else { 1 };
+            match r.below(9) {
+                0 | 1 => lx_pair(r, &mut ops, c, &[b"DBSIZE"]),
+                2 | 3 => { let pat: &[u8] = *r.pick(&[&b"*"[..], b"e*", b"*2", b"?e*"]); lx_pair(r, &mut ops, c, &[b"KEYS", pat]) }
+                4 => { let pat: &[u8] = *r.pick(&[&b"e2"[..], b"e4", b"stay", b"le2", b"he4"]); lx_pair(r, &mut ops, c, &[b"SCAN", b"0", b"MATCH", pat, b"COUNT", b"100"]) }
+                5 => { let k: &[u8] = *r.pick(&[&b"e2"[..], b"e4", b"le2", b"he4", b"stay", b"nokey"]);
+                       match r.below(3) { 0 => lx_pair(r, &mut ops, c, &[b"TYPE", k]), 1 => lx_pair(r, &mut ops, c, &[b"EXISTS", k, b"e2", b"stay"]), _ => lx_pair(r, &mut ops, c, &[b"GET", k]) } }
+                6 => { let pat: &[u8] = *r.pick(&[&b"e2"[..], b"o2", b"ostay"]); lx_pair(r, &mut ops, c, &[b"scan", b"0", b"COUNT", b"1000", b"MATCH", pat]) }
+                7 => lx_pair(r, &mut ops, c, &[b"SCAN", b"0", b"MATCH", b"e4", b"COUNT", b"50", b"TYPE", b"string"]),
+                _ => lx_pair(r, &mut ops, c, &[b"DBSIZE"]),
+            }
+        }
+        ops.push(sleep_op(300));
+    }
+    // after every deadline: RANDOMKEY is deterministic when at most one key is left
+    if keep <= 1 { lx_pair(r, &mut ops, 1, &[b"RANDOMKEY"]); }
+    lx_pair(r, &mut ops, 1, &[b"DBSIZE"]); lx_pair(r, &mut ops, 1, &[b"KEYS", b"*"]); lx_pair(r, &mut ops, 2, &[b"DBSIZE"]);
+    ops.push(cmd_op(1, &[b"VERIF", b"INDEX", &dbs]));
+    Case { id: format!("lx-{}", id), ops, outs: vec![] }
+}
+
 pub fn gen(seed: u64, n: usize, _tier: &str) -> Vec<Case> {
     let mut r = Rng::new(seed);
     let mut cases = vec![];
     for id in 0..n {
-        cases.push(match id % 10 { 0..=4 => twin_case(&mut r, id), 5 | 6 => multi_case(&mut r, id), 7 => shape_case(&mut r, id), 8 => sandbox_case(&mut r, id), _ => sha_case(&mut r, id) });
+        cases.push(match id % 12 { 0..=4 => twin_case(&mut r, id), 5 | 6 => multi_case(&mut r, id), 7 => shape_case(&mut r, id), 8 => sandbox_case(&mut r, id), 9 => sha_case(&mut r, id), _ => lazy_case(&mut r, id) });
     }
     cases
 }
@@ -435,44 +500,24 @@ fn strip(v: &V) -> V {
     }
 }
 fn through_double(i: i64) -> i64 { let f = i as f64; if f >= 9.223372036854775807e18 { i64::MAX } else { f as i64 } }
-#[derive(Clone, PartialEq)] enum L { Nil, Int(i64), Str(Vec<u8>), Table(Vec<L>), Abort }
+#[derive(Clone, PartialEq)] enum L { Nil, Int(i64), Str(Vec<u8>), Table(Vec<L>), Err(Vec<u8>), Abort(Vec<u8>) }
 fn lossy(b: &[u8]) -> Vec<u8> { String::from_utf8_lossy(b).into_owned().into_bytes() }
 /// what THIS implementation's conversions make of a reply (used only to name the class of a difference)
 fn impl_to_lua(v: &V, pcall: bool) -> L {
     match v {
-        V::Simple(b) | V::Bulk(b) => L::Str(lossy(b)), V::NullBulk | V::NullArray => L::Nil, V::Int(i) => L::Int(through_double(*i)),
-        V::Error(_) => if pcall { L::Nil } else { L::Abort },
-        V::Array(l) => { let mut o = vec![]; for x in l { match impl_to_lua(x, pcall) { L::Abort => return L::Abort, y => o.push(y) } } L::Table(o) }
+        V::Simple(b) => L::Str(lossy(b)), V::Bulk(b) => L::Str(b.clone()), V::NullBulk | V::NullArray => L::Nil, V::Int(i) => L::Int(through_double(*i)),
+        V::Error(m) => if pcall { L::Err(m.clone()) } else { L::Abort(m.clone()) },
+        V::Array(l) => { let mut o = vec![]; for x in l { match impl_to_lua(x, pcall) { L::Abort(m) => return L::Abort(m), y => o.push(y) } } L::Table(o) }
         _ => L::Nil,
     }
 }
 fn impl_to_resp(l: &L) -> V {
     match l {
-        L::Nil => V::NullBulk, L::Int(i) => V::Int(*i), L::Str(s) => V::Bulk(s.clone()), L::Abort => V::Error(b"ERR".to_vec()),
-        L::Table(t) => { let items: Vec<V> = t.iter().take_while(|x| **x != L::Nil).map(impl_to_resp).collect(); if items.is_empty() { V::NullBulk } else { V::Array(items) } }
+        L::Nil => V::NullBulk, L::Int(i) => V::Int(*i), L::Str(s) => V::Bulk(s.clone()), L::Abort(m) | L::Err(m) => V::Error(m.clone()),
+        L::Table(t) => V::Array(t.iter().take_while(|x| **x != L::Nil).map(impl_to_resp).collect()),
     }
 }
 fn has_nil(v: &V) -> bool { match v { V::Array(l) => l.iter().any(|x| matches!(x, V::NullBulk | V::NullArray) || has_nil(x)), _ => false } }
-fn has_empty(v: &V) -> bool { match v { V::Array(l) => l.is_empty() || l.iter().any(has_empty), _ => false } }
-fn has_bin(v: &V) -> bool { match v { V::Bulk(b) | V::Simple(b) => std::str::from_utf8(b).is_err(), V::Array(l) => l.iter().any(has_bin), _ => false } }
-
-/// command-level classes: the executor and the direct handler disagree on this input
-fn command_class(c: &[Vec<u8>]) -> Option<&'static str> {
-    let name = c[0].to_ascii_uppercase();
-    let up = |x: &Vec<u8>| x.to_ascii_uppercase();
-    match &name[..] {
-        b"SET" => {
-            let o: Vec<Vec<u8>> = c.iter().skip(3).map(up).collect();
-            if o.iter().any(|x| x == b"GET" || x == b"KEEPTTL") { Some("lua-set-options") }
-            else if o.iter().any(|x| x == b"NX") && o.iter().any(|x| x == b"XX") { Some("lua-set-options") } else { None }
-        }
-        b"PING" => Some("lua-ping-arity"),
-        b"DBSIZE" | b"FLUSHDB" | b"FLUSHALL" | b"RANDOMKEY" => Some("lua-arity-unchecked"),
-        b"XRANGE" | b"XREVRANGE" if c.len() != 4 && c.len() != 6 => Some("lua-stream-options"),
-        b"XTRIM" if c.len() != 4 => Some("lua-stream-options"),
-        _ => None,
-    }
-}
 
 fn std_view(v: &V) -> V {
     // the standard conversion is the identity except that integers travel as Lua numbers (doubles)
@@ -481,56 +526,41 @@ fn std_view(v: &V) -> V {
 fn sort_bulks(v: V) -> V {
     match v { V::Array(mut l) => { l.sort_by(|a, b| match (a, b) { (V::Bulk(x), V::Bulk(y)) => x.cmp(y), _ => std::cmp::Ordering::Equal }); V::Array(l) } x => x }
 }
-const STATE_CLASSES: &[&str] = &["lua-lossy", "lua-set-options", "lua-stream-options"];
 
 pub fn judge(c: &Case, outs: &[Vec<Tok>]) -> Vec<String> {
     let mut fails = vec![];
-    if !c.id.starts_with("tw-") { return fails; }
-    let mut state_class: Option<&'static str> = None;
+    if !(c.id.starts_with("tw-") || c.id.starts_with("lx-")) { return fails; }
     let mut k = 0;
     while k < c.ops.len() {
         let op = &c.ops[k];
         if tok_bytes(&op[0]) == b"NOTE" && op.len() >= 2 && k + 2 < c.ops.len().min(outs.len()) {
             let kind = tok_bytes(&op[1]).to_vec();
-            if let (Some(d), Some(s)) = (dec_reply(&outs[k + 1]), dec_reply(&outs[k + 2])) {
+            let rev = kind == b"twinr";
+            let (di, si) = if rev { (k + 2, k + 1) } else { (k + 1, k + 2) };
+            let kind = if rev { b"twin".to_vec() } else { kind };
+            if let (Some(d), Some(s)) = (dec_reply(&outs[di]), dec_reply(&outs[si])) {
                 if kind == b"twin" {
                     let pcall = tok_bytes(&op[2]) == b"pcall";
                     let sorted = op.len() > 3 && tok_bytes(&op[3]) == b"sorted";
-                    let direct = cmd_of(&c.ops[k + 1]).unwrap_or_default();
-                    let dargs: Vec<Vec<u8>> = direct.iter().map(|x| match x { V::Bulk(b) => b.clone(), _ => vec![] }).collect();
                     // the property: the script answers what the direct command answers
                     let want = strip(&std_view(&if sorted { sort_bulks(d.clone()) } else { d.clone() }));
                     let ss = strip(&s);
-                    // inputs on which the two paths are known to act differently may diverge silently
-                    if let Some(cl) = command_class(&dargs) { if STATE_CLASSES.contains(&cl) && state_class.is_none() { state_class = Some(cl); } }
-                    let bin_arg = dargs.iter().skip(1).any(|a| std::str::from_utf8(a).is_err());
-                    if bin_arg && state_class.is_none() { state_class = Some("lua-lossy"); }
                     if want != ss {
                         // what this implementation's conversions make of the direct reply (incl. table.sort)
                         let via = { let l = impl_to_lua(&d, pcall);
-                                    let l = if sorted { match l { L::Table(t) if t.iter().all(|x| matches!(x, L::Str(_))) => { let mut t = t; t.sort_by(|a, b| match (a, b) { (L::Str(x), L::Str(y)) => x.cmp(y), _ => std::cmp::Ordering::Equal }); L::Table(t) } _ => L::Abort } } else { l };
+                                    let l = if sorted { match l { L::Table(t) if t.iter().all(|x| matches!(x, L::Str(_))) => { let mut t = t; t.sort_by(|a, b| match (a, b) { (L::Str(x), L::Str(y)) => x.cmp(y), _ => std::cmp::Ordering::Equal }); L::Table(t) }
+                                                                  L::Err(m) => L::Err(m), L::Abort(m) => L::Abort(m), _ => L::Abort(b"ERR".to_vec()) } } else { l };
                                     strip(&impl_to_resp(&l)) };
+                        // the classes pinned by the repository's own tests
                         let cls: Option<&'static str> =
-                            if bin_arg { Some("lua-lossy") }
-                            else if via == ss {
-                                if matches!(d, V::Error(_)) { Some(if pcall { "lua-pcall-nil" } else { "lua-error-code" }) }
-                                else if matches!(d, V::Simple(_)) { Some("lua-status-as-bulk") }
-                                else if has_bin(&d) { Some("lua-lossy") }
-                                else if has_nil(&d) { Some("lua-nil-truncates") }
-                                else if has_empty(&d) { Some("lua-empty-array-nil") }
-                                else { None }
-                            } else if let Some(cl) = command_class(&dargs) { Some(cl) } else { state_class };
+                            if via == ss { if matches!(d, V::Simple(_)) { Some("lua-status-as-bulk") } else if has_nil(&d) { Some("lua-nil-truncates") } else { None } } else { None };
                         match cls {
-                            Some(cl) => { if STATE_CLASSES.contains(&cl) && state_class.is_none() { state_class = Some(cl); }
-                                          fails.push(format!("FAIL case={} op={} class={} twin reply differs", c.id, k + 2, cl)); }
+                            Some(cl) => fails.push(format!("FAIL case={} op={} class={} twin reply differs", c.id, k + 2, cl)),
                             None => fails.push(format!("FAIL case={} op={} twin reply differs: direct {:?} script {:?}", c.id, k + 2, want, ss)),
                         }
                     }
                 } else if kind == b"dump" && strip(&d) != strip(&s) {
-                    match state_class {
-                        Some(cl) => fails.push(format!("FAIL case={} op={} class={} twin state differs", c.id, k + 2, cl)),
-                        None => fails.push(format!("FAIL case={} op={} twin state differs: {:?} vs {:?}", c.id, k + 2, strip(&d), strip(&s))),
-                    }
+                    fails.push(format!("FAIL case={} op={} twin state differs: {:?} vs {:?}", c.id, k + 2, strip(&d), strip(&s)));
                 }
             }
             k += 3;
